@@ -5,8 +5,8 @@ From PM Require Import Lib.Bytes Lib.PyStr Lib.PyStrFacts Http.Url Http.Chunk Ht
   Http.UrlSpec Net.Forward.
 From Coq Require Import ZArith.
 
-Definition mk_cfg agent dis auth app : fcfg :=
-  {| cf_agent := agent; cf_disable := dis; cf_auth_code := auth; cf_via_append := app |}.
+Definition mk_cfg agent dis auth app upg : fcfg :=
+  {| cf_agent := agent; cf_disable := dis; cf_auth_code := auth; cf_via_append := app; cf_upgrade_complete := upg |}.
 Definition mk_field n pre v post : hfield := {| hf_name := n; hf_pre := pre; hf_value := v; hf_post := post |}.
 Definition mk_chunk sz ext data : Grammar.chunk := {| ck_size := sz; ck_ext := ext; ck_data := data |}.
 Definition mk_chunked cs last ext trailers : chunked :=
@@ -41,34 +41,83 @@ Fixpoint feed_obs (cfg : fcfg) (connect_ok : bool) (st : hstate) (pieces : list 
       end
   end.
 
+(* how the bytes of one request were cut into the pieces received: at the given offsets (strictly
+   increasing, inside the data), or after every single byte *)
+Inductive cutspec := Cuts (l : list N) | EveryByte.
+
+Fixpoint cut_at (data : bytes) (prev : N) (cuts : list N) : list bytes :=
+  match cuts with
+  | [] => [data]
+  | c :: t => take (c - prev) data :: cut_at (drop (c - prev) data) c t
+  end.
+Definition cut_pieces (data : bytes) (c : cutspec) : list bytes :=
+  match c with
+  | Cuts l => cut_at data 0 l
+  | EveryByte => map (fun x => [x]) data
+  end.
+
+(* one request of a connection *)
+Inductive rq :=
+| RAbs (r : request) (e : fwd)    (* abstract syntax of a well-formed request — the bytes sent are its rendering —
+                                     and the forwarded request the harness demands (= what h11 read at the origin) *)
+| RRaw (raw : bytes).             (* any other bytes *)
+Definition rq_bytes (q : rq) : bytes := match q with RAbs r _ => render_request r | RRaw raw => raw end.
+
 Inductive fcase :=
-(* a whole client connection through the real HttpProtocolHandler + HttpProxyPlugin: pieces as received,
-   the final outcome, everything the upstream socket was sent, and the cumulative count after each piece *)
-| FConn (cfg : fcfg) (connect_ok : bool) (pieces : list bytes) (exp_outcome : N) (exp_up : bytes)
+(* a whole client connection through the real HttpProtocolHandler + HttpProxyPlugin: the requests with their
+   segmentation, the final outcome, everything the upstream socket was sent, and the cumulative count of
+   forwarded bytes after each piece *)
+| FConn (cfg : fcfg) (connect_ok : bool) (reqs : list (rq * cutspec)) (exp_outcome : N) (exp_up : bytes)
         (exp_counts : list N)
-(* the reference request parser against h11's reading of the same bytes *)
-| FRef (w : bytes) (exp : option fwd)
-(* the generator's abstract request: inside the theorems' domain, rendered to exactly the bytes sent, and
-   the forwarded request demanded by the theorems is the one the harness demands of the implementation *)
-| FDom (cfg : fcfg) (r : request) (raw : bytes) (exp : fwd).
+(* the reference request parser against h11's reading of the same bytes (used on forwarded bytes of requests
+   OUTSIDE the grammar; for the others it is part of FConn) *)
+| FRef (w : bytes) (exp : option fwd).
 
 Definition list_N_eqb := list_eqb N.eqb.
 
+Definition no_auth (cfg : fcfg) : fcfg :=
+  {| cf_agent := cf_agent cfg; cf_disable := cf_disable cfg; cf_auth_code := None; cf_via_append := cf_via_append cfg;
+     cf_upgrade_complete := cf_upgrade_complete cfg |}.
+
+(* the abstract requests: inside the theorems' domain; the forwarded request the theorems promise is the one
+   the harness demands; and the reference parser reads exactly that out of the i-th forwarded byte string
+   (credentials are only asked of the first request of a connection) *)
+Fixpoint check_abs (cfg : fcfg) (first : bool) (reqs : list (rq * cutspec)) (queue : list bytes) : bool :=
+  match reqs with
+  | [] => true
+  | (RAbs r e, _) :: t =>
+      let cfg' := if first then cfg else no_auth cfg in
+      wf_request r && wf_cfg cfg' && auth_passes cfg' r && fwd_eqb (expected_fwd cfg' r) e &&
+      match queue with
+      | w :: _ => option_eqb fwd_eqb (ref_parse_request w) (Some e)
+      | [] => false
+      end &&
+      check_abs cfg false t (tl queue)
+  | (RRaw _, _) :: t => check_abs cfg false t (tl queue)
+  end.
+(* the abstract part is only judged on the leading run of abstract requests (the harness puts raw
+   requests last) *)
+Fixpoint abs_prefix (reqs : list (rq * cutspec)) : list (rq * cutspec) :=
+  match reqs with
+  | (RAbs r e, c) :: t => (RAbs r e, c) :: abs_prefix t
+  | _ => []
+  end.
+
 Definition check_case (c : fcase) : bool :=
   match c with
-  | FConn cfg ok pieces eo eu ec =>
+  | FConn cfg ok reqs eo eu ec =>
+      let pieces := flat_map (fun qc => cut_pieces (rq_bytes (fst qc)) (snd qc)) reqs in
       let '(o, counts) := feed_obs cfg ok init_state pieces [] in
-      (outcome_code o =? eo) && bytes_eqb (upstream_bytes (outcome_state o)) eu && list_N_eqb counts ec
+      (outcome_code o =? eo) && bytes_eqb (upstream_bytes (outcome_state o)) eu && list_N_eqb counts ec &&
+      (negb ok || check_abs cfg true (abs_prefix reqs) (upstream_queue (outcome_state o)))
   | FRef w e => option_eqb fwd_eqb (ref_parse_request w) e
-  | FDom cfg r raw e =>
-      wf_request r && wf_cfg cfg && auth_passes cfg r && bytes_eqb (render_request r) raw &&
-      fwd_eqb (expected_fwd cfg r) e
   end.
 
 (* model output for replay files *)
 Definition run_case (c : fcase) :=
   match c with
-  | FConn cfg ok pieces _ _ _ =>
+  | FConn cfg ok reqs _ _ _ =>
+      let pieces := flat_map (fun qc => cut_pieces (rq_bytes (fst qc)) (snd qc)) reqs in
       let '(o, counts) := feed_obs cfg ok init_state pieces [] in
       Some (outcome_code o, upstream_bytes (outcome_state o), counts)
   | _ => None
